@@ -34,7 +34,9 @@ def expected_tables(tm):
 # ----------------------------------------------------------------------------- v2
 
 def pad_len():
-    return st.one_of(st.just(0), st.just(0), st.integers(1, 7), st.integers(8, 64), st.integers(65, 4096))
+    # up to a page and beyond: 16 KiB and 64 KiB pages exist, and the event section may start on one
+    return st.one_of(st.just(0), st.just(0), st.integers(1, 7), st.integers(8, 64), st.integers(65, 4096), st.integers(65, 4096),
+                     st.sampled_from([4097, 4160, 8192, 16384 - 0x120, 16384, 65536 - 0x120 - 28, 65536, 70000]))
 
 
 def records(max_m=60, first_nonzero=False):
